@@ -85,6 +85,7 @@ var props = map[string]propSpec{
 		Explanation: "real ClientConfigs (nonce, signing, ALPN assembly, chain filtering) and its VerifyConnection / GetClientCertificate callbacks against rogue servers (stale certificate for another nonce, foreign root, self-signed, another node's certificate; with or without the leaf key) for each configuration and dial option set; and against the node's own server when only one of its two roots survives; the pending-authorization path (not-authorized error, nothing stored, success with the same key after authorization) with both sides of the handshake running the library's code; the whole of protocol.Dial (credentials held, or fetched on the first connection of the same call) over scripted peers: own server, rogue peers only, a rogue peer first and the own server next"},
 	"C08": {Harnesses: []harnessSpec{
 		{Pkg: "rotation", Fn: "VerifC08Rotate", Validate: 16, MustReach: []string{"nothing", "promote", "remint", "startover"}, CrossSolver: "z3"},
+		{Pkg: "rotation", Fn: "VerifC08ReinitRemoveFails", Validate: 4, MustReach: []string{"end"}},
 	}, Assumptions: with("clock assumption: one rotation call takes < 100 ms and ends before the promoted root expires"), Explanation: "one RotateRootCertificates call from absent or stored roots whose four validity instants are free integers (every ordering relative to now at once), any positive lifetime and skews, with or without reinitialisation: exact decision table, persisted = returned incl. labels, exact minted windows with the half-life shift, overlap, current valid"},
 	"C09": {Harnesses: []harnessSpec{
 		{Pkg: "rotation", Fn: "VerifC09Base", Validate: 1, MustReach: []string{"end"}, CrossSolver: "z3"},
